@@ -187,12 +187,12 @@ func (v *Vue) loadCachedWithFrontMatter(filename string) (map[string]any, []*htm
 
 	// Cache miss or file changed - reload
 	frontMatter, templateBytes, err := v.loader.loadFragment(filename)
-	if err != nil {
-		return nil, nil, err
+	var dom []*html.Node
+	if err == nil {
+		dom, err = parser.ParseTemplateBytes(templateBytes)
 	}
-
-	dom, err := parser.ParseTemplateBytes(templateBytes)
 	if err != nil {
+		v.forgetTemplate(filename)
 		return nil, nil, err
 	}
 
@@ -205,6 +205,15 @@ func (v *Vue) loadCachedWithFrontMatter(filename string) (map[string]any, []*htm
 	v.templateMu.Unlock()
 
 	return frontMatter, dom, nil
+}
+
+// forgetTemplate drops the cached copy of a template. A failed load does not leave the previous
+// entry behind: it would be served again as soon as the file's modification time happens to
+// equal the stored one.
+func (v *Vue) forgetTemplate(filename string) {
+	v.templateMu.Lock()
+	delete(v.templateCache, filename)
+	v.templateMu.Unlock()
 }
 
 // assignSeenAttrs recursively assigns unique IDs to all v-once elements in the tree
